@@ -99,7 +99,8 @@ pub struct NotifScenario {
 
 #[derive(Debug, Clone)]
 enum Entry {
-    OpenCmd { x: u8, y: u8, ok: bool, err: String },
+    /// `ended` = how many of x's connection tasks had ended when the command returned (SimNet ground truth)
+    OpenCmd { x: u8, y: u8, ok: bool, err: String, ended: usize },
     CloseCmd { x: u8, y: u8 },
     SendCmd { x: u8, y: u8, ok: bool, err: String, api: &'static str },
     /// `hs` = the remote handshake carried by the inbound substream (every open command uses a fresh one)
@@ -165,6 +166,7 @@ fn proto() -> ProtocolName {
 }
 
 fn spawn_user(w: &mut World, node: u8, mut handle: NotificationHandle, peers: [PeerId; N], policy: Vec<Ans>, log: Log) -> tokio::sync::mpsc::UnboundedSender<UCmd> {
+    let script = w.nodes[node as usize].script.clone();
     let (tx, mut rx) = tokio::sync::mpsc::unbounded_channel::<UCmd>();
     let x = node;
     w.spawn_for(node as usize, "notif-user", async move {
@@ -185,13 +187,13 @@ fn spawn_user(w: &mut World, node: u8, mut handle: NotificationHandle, peers: [P
                         opens += 1;
                         handle.set_handshake(vec![x, opens]);
                         let r = handle.open_substream(peers[y as usize]).await;
-                        log.lock().push(Entry::OpenCmd { x, y, ok: r.is_ok(), err: r.err().map(|e| format!("{e:?}")).unwrap_or_default() });
+                        log.lock().push(Entry::OpenCmd { x, y, ok: r.is_ok(), err: r.err().map(|e| format!("{e:?}")).unwrap_or_default(), ended: script.0.lock().ended.len() });
                     }
                     Some(UCmd::TryOpen(y)) => {
                         opens += 1;
                         handle.set_handshake(vec![x, opens]);
                         let r = handle.try_open_substream_batch(std::iter::once(peers[y as usize]));
-                        log.lock().push(Entry::OpenCmd { x, y, ok: r.is_ok(), err: r.err().map(|e| format!("refused for {} peer(s)", e.len())).unwrap_or_default() });
+                        log.lock().push(Entry::OpenCmd { x, y, ok: r.is_ok(), err: r.err().map(|e| format!("refused for {} peer(s)", e.len())).unwrap_or_default(), ended: script.0.lock().ended.len() });
                     }
                     Some(UCmd::SendAsync(y, data)) => {
                         let r = handle.send_async_notification(peers[y as usize], data).await;
@@ -281,6 +283,8 @@ struct View {
     must_close: Option<usize>,
     /// a new stream was reported opened while the Closed of the previous connection's stream was still owed
     late_close_of_previous_stream: bool,
+    /// this user (or the remote's) asked to close the stream that is open per this log and Closed has not come yet
+    close_requested: bool,
 }
 
 impl View {
@@ -307,7 +311,7 @@ fn in_ab(x: u8, y: u8) -> bool {
     (x == A && y == B) || (x == B && y == A)
 }
 
-fn oracle(log: &[Entry], scn: &NotifScenario, ab_live_at_end: bool) -> Vec<Viol> {
+fn oracle(log: &[Entry], scn: &NotifScenario, ab_live_at_end: bool, ended_final: [usize; N]) -> Vec<Viol> {
     let mut out = Vec::new();
     let mut v: Vec<Vec<View>> = vec![vec![View::default(); N + 1]; N + 1];
     let mut owed: Vec<Owed> = Vec::new();
@@ -348,7 +352,15 @@ fn oracle(log: &[Entry], scn: &NotifScenario, ab_live_at_end: bool) -> Vec<Viol>
                 me.outstanding = true;
                 me.open_causes += 1;
             }
-            Entry::CloseCmd { .. } => {}
+            Entry::CloseCmd { x, y } => {
+                // both ends of the stream will be reported closed: x's by its own request, y's because x's side goes away
+                for (p, q) in [(*x, *y), (*y, *x)] {
+                    let view = &mut v[cl(p)][cl(q)];
+                    if view.open {
+                        view.close_requested = true;
+                    }
+                }
+            }
             Entry::SendCmd { x, y, ok, api, .. } => {
                 if *ok && !v[cl(*x)][cl(*y)].open {
                     // `send_sync_notification` answers Ok(()) for a peer without a stream and drops the notification
@@ -408,8 +420,14 @@ fn oracle(log: &[Entry], scn: &NotifScenario, ab_live_at_end: bool) -> Vec<Viol>
                 if me.open {
                     // cause class: the stream still open per the user's log belongs to a connection that has been lost
                     // (its Closed is merely late) / it is a stream of the live connection
-                    let cause = if me.must_close.is_some() { "previous-stream-of-lost-connection-not-yet-closed" } else { "stream-of-live-connection" };
-                    if me.must_close.is_some() {
+                    let cause = if me.must_close.is_some() {
+                        "previous-stream-of-lost-connection-not-yet-closed"
+                    } else if me.close_requested {
+                        "previous-stream-closed-by-user-not-yet-reported-closed"
+                    } else {
+                        "stream-of-live-connection"
+                    };
+                    if me.must_close.is_some() || me.close_requested {
                         me.late_close_of_previous_stream = true;
                     }
                     out.push(Viol::new(
@@ -448,6 +466,7 @@ fn oracle(log: &[Entry], scn: &NotifScenario, ab_live_at_end: bool) -> Vec<Viol>
                 }
                 me.open = false;
                 me.must_close = None;
+                me.close_requested = false;
             }
             Entry::OpenFailure { x, y, error } => {
                 let me = &mut v[cl(*x)][cl(*y)];
@@ -505,8 +524,14 @@ fn oracle(log: &[Entry], scn: &NotifScenario, ab_live_at_end: bool) -> Vec<Viol>
         if v[cl(o.x)][cl(o.y)].unanswered_validation.is_some_and(|j| j > o.idx) {
             continue;
         }
+        // SimNet ground truth: one of x's connection tasks ended after the request was accepted although the peer stayed
+        // connected (no cut since) — the request may have gone to a primary connection that then closed while a
+        // secondary connection kept the peer connected; TransportService drops such pending opens silently
+        let ended_at_request = if let Entry::OpenCmd { ended, .. } = &log[o.idx] { *ended } else { 0 };
         let situation = if o.rejected_locally {
             "local-user-rejected-inbound"
+        } else if ended_final[o.x as usize] > ended_at_request {
+            "own-connection-ended-while-peer-stayed-connected"
         } else if o.remote_busy {
             "remote-busy"
         } else {
@@ -734,7 +759,8 @@ impl Scenario for NotifScenario {
         let mut v = self.probe(st, w);
         let live = ab_links(w).iter().any(|k| !st.cut_links.contains(k));
         let log = st.log.lock().clone();
-        v.extend(oracle(&log, self, live));
+        let ended_final: [usize; N] = std::array::from_fn(|i| w.nodes[i].script.0.lock().ended.len());
+        v.extend(oracle(&log, self, live, ended_final));
         v
     }
 
